@@ -26,7 +26,7 @@ shape("report_compile", "src/codemodder/context.py", _C15,
        "CodemodExecutionContext.get_changesets", "CodemodExecutionContext.get_failures",
        "CodemodExecutionContext.get_unfixed_findings", "CodemodExecutionContext.process_dependencies",
        "CodemodExecutionContext.add_description", "CodemodExecutionContext.process_results",
-       "CodemodExecutionContext.compile_results"],
+       "CodemodExecutionContext.compile_results", "CodemodExecutionContext._writable_package_stores"],
       doc="context.py aggregates keyed by codemod id, process_results, process_dependencies, add_description, compile_results")
 shape("report_update_meta", "src/codemodder/utils/update_finding_metadata.py", _C15,
       "report_update_meta", "update_meta_variant", "UpdateByFindingId", ["update_finding_metadata"],
